@@ -19,7 +19,7 @@ const SPEC: Spec = Spec {
     ],
     bounds_quick: "V1 every integer < 65536 x radix 2..=36 (text) and 2..=256 (digits); V2 Dense(S5,3) x all radices; V3 r^k-1,r^k,r^k+1 for k <= 3*power(r)+2 and at 62..66 / 127..130 native digits, all radices 2..=36 text and 2..=256 digits; V4 12 patterns x every length 1..=70 and {100,129,257} x all radices; V6 dense LCG values of every length 1..=70; V5 big-base powers, all radices; F 224 specs x 6 traits x 16 values; P1 all strings of length <= 5 over 12 symbols (+bytes <= 4 over 14 byte values); P2 well-formed long inputs, all radices 2..=36; P3 all radices 2..=256",
     bounds_thorough: "V1 every integer < 2^18; V2; V3 also at 255..258 and 400 native digits; V4 30 lengths up to 1025 (every sqrt boundary of the big-base target length); V5; F; P1 length <= 6 (bytes <= 5); P2; P3",
-    hang_secs: 300,
+    hang_secs: 180,
     probes: Some(probes),
     max_workers: 16,
 };
